@@ -34,6 +34,11 @@ type C17Case struct {
 	// times; every call must report the values of the single execution.
 	Once  bool `json:"once,omitempty"`
 	Calls int  `json:"calls,omitempty"`
+	// Late: after the successful call(s), the SAME function is called once
+	// more in a way that makes resolution fail: "missing" (no inputs),
+	// "convfail" (its parameter has to come out of a converter that fails),
+	// "convneeds" (... out of a converter whose second input nothing provides)
+	Late string `json:"late,omitempty"`
 }
 
 var (
@@ -204,6 +209,37 @@ func evalC17(c *engine.Case) engine.Verdict {
 	if got := res.Err(); got != wantErr {
 		v.Failf("Err() = %v, want %v", got, wantErr)
 	}
+	if x.Late != "" && v.Fail == "" {
+		// what an earlier (successful, possibly memoized) call returned has no
+		// bearing on a call whose own resolution fails
+		v.Class("resolution-fails-after-a-successful-call:" + x.Late)
+		late := []argmapper.Arg{engine.Quiet()}
+		convErr := &engine.FailErr{Func: 7, Exec: 1}
+		switch x.Late {
+		case "convfail":
+			late = append(late, argmapper.Typed(engine.T1{K: 2}), argmapper.Converter(func(engine.T1) (engine.T0, error) { return engine.T0{}, convErr }))
+		case "convneeds":
+			late = append(late, argmapper.Typed(engine.T1{K: 2}), argmapper.Converter(func(engine.T1, engine.T2) engine.T0 { return engine.T0{K: 9} }))
+		}
+		before := ran
+		var res2 argmapper.Result
+		engine.Protect(&o, func() { res2 = f.Call(late...) })
+		if o.Panic != "" {
+			v.Failf("late call panicked: %s", o.Panic)
+			return v
+		}
+		if res2.Err() == nil {
+			v.Failf("late call (%s): resolution fails but Err() is nil", x.Late)
+		} else if x.Late == "convfail" && res2.Err() != error(convErr) {
+			v.Failf("late call: Err() = %v, want the failing converter's error", res2.Err())
+		}
+		if res2.Len() != 0 {
+			v.Failf("late call (%s): resolution fails but Len() = %d", x.Late, res2.Len())
+		}
+		if ran != before {
+			v.Failf("late call (%s): the function ran although its parameter could not be produced", x.Late)
+		}
+	}
 	return v
 }
 
@@ -226,6 +262,9 @@ func genC17(g engine.G) *engine.Case {
 	x.Unsatisfied = g.Pct(10)
 	if g.Pct(30) {
 		x.Once, x.Calls = true, g.Int(2, 3)
+	}
+	if !x.Unsatisfied && g.Pct(30) {
+		x.Late = engine.Pick(g, []string{"missing", "convfail", "convneeds"})
 	}
 	c := &engine.Case{}
 	c.SetX(&x)
